@@ -50,6 +50,23 @@ def Equed.rowequ : Equed → Bool
 def Equed.colequ : Equed → Bool
   | .C => true | .B => true | _ => false
 
+/-- the four ways the stored square matrix (A for SLU_NC, A' for SLU_NR) can act on a vector:
+itself, its transpose, its conjugate transpose, its entrywise conjugate -/
+inductive Op | N | T | C | J
+deriving DecidableEq, Repr, Inhabited
+
+def opOfTrans : Trans → Op
+  | .N => .N | .T => .T | .C => .C
+
+/-- the DOCUMENTED system `op(A) X = B` read in storage coordinates: SLU_NR storage holds A', so
+`A x` is `T` on the stored matrix, `A' x` is `N` and `A^H x` is the entrywise conjugate `J` -/
+def docOp (o : Opts) : Op :=
+  if o.rowStored then (match o.trans with | .N => .T | .T => .N | .C => .J)
+  else opOfTrans o.trans
+
+/-- what `gstrs(trant)` solves (dgssvx.c:488-494) -/
+def implOp (o : Opts) : Op := opOfTrans (effTrans o.rowStored o.trans).1
+
 section model
 variable {K R : Type} [Mag K R]
 variable [Zero R] [One R] [Mul R] [Div R] [LT R] [DecidableLT R] [LE R] [DecidableLE R] [BEq R]
